@@ -34,6 +34,10 @@ type verdictRec struct {
 	// DocWinners: the referrer-level exceptions (indexes into the src pool) that may be reported when no rule of the
 	// request itself decides
 	DocWinners []int `json:"docwinners,omitempty"`
+	// Web2 / Winners2 / Cands2: the verdict for a script request to the same URL from the same page
+	Web2     string `json:"web2,omitempty"`
+	Winners2 []int  `json:"winners2,omitempty"`
+	Cands2   []int  `json:"cands2,omitempty"`
 }
 
 type verdictMismatch struct {
@@ -481,6 +485,17 @@ func cmdReplayVerdict(args []string) error {
 				fromDoc = res.BasicRule == nil
 			})
 			check("Engine.MatchRequest", p, sp, lists, c.Web, c.Winners, c.Cands, got, fromDoc, pv)
+			if rep == 1 && c.Web2 != "" {
+				// a script of the same page: document-level rules of the bag do not apply to it
+				pv2 := safeCall(func() {
+					q := rules.NewRequest(verdictURL, verdictSrcURL, rules.TypeScript)
+					q.SortedClientTags, q.ClientName, q.DNSType = []string{"t1"}, "phone", dns.TypeA
+					res := urlfilter.NewEngine(st).MatchRequest(q)
+					got = res.GetBasicResult()
+					fromDoc = res.BasicRule == nil
+				})
+				check("Engine.MatchRequest(script request)", p, sp, lists, c.Web2, c.Winners2, c.Cands2, got, fromDoc, pv2)
+			}
 			if rep == 0 {
 				// the same bag with the referrer under a private public suffix (user.github.io, $domain=github.io) and
 				// patterns too short for the shortcut index ("||h.t*"), so that the rules are filed under their $domain:
